@@ -261,6 +261,9 @@ func mapReduceWithPanicChan(source <-chan any, panicChan *onceChan, mapper Mappe
 			return nil, err
 		} else if ok {
 			return v, nil
+		} else if options.ctx.Err() != nil {
+			// 上下文已结束：聚合者的写入已被丢弃，没有输出并不是聚合者的过错
+			return nil, context.DeadlineExceeded
 		} else {
 			return nil, ErrReduceNoOutput
 		}
